@@ -40,6 +40,8 @@ CONSTANTS Users,        \* user thread ids
           HandlerReconnect, \* an exception handler may call connect()
           SrvMayStall,  \* the server may stop in the middle of a frame and stay silent
           ShutdownBoth, \* disconnect() shuts down both halves of the socket before closing it
+          HEAtomic,     \* _handle_exception checks and disconnects under the write lock (the code since fix 29c3a80;
+                        \* FALSE: the code as it was - check outside the lock, disconnect later)
           Fixed, Emit
 
 Unset == 0 - 1      \* attribute does not exist
@@ -243,11 +245,16 @@ NT_Handlers(t) ==
         /\ \E mode \in ServerModes :
              LET c == ConnectBody(State, mode) IN Install([c.S EXCEPT !.tstate[t] = "he_check"])
         /\ Keep /\ UNCHANGED <<pend, rsock, exits, errors>>
-\* if (self.new_networking_thread or self.networking_thread).interrupt:   -- evaluated, not yet acted upon
+\* with self._write_lock: if (self.new_networking_thread or self.networking_thread).interrupt: self.disconnect(immediate=True)
+\* (HEAtomic: one step under the lock; otherwise the condition is evaluated here and acted upon in NT_Disc)
 NT_Check(t) == /\ tstate[t] = "he_check"
-               /\ LET who == IF newNt # 0 THEN newNt ELSE nt IN
-                  Goto(t, IF who # 0 /\ intr[who] THEN "he_disc" ELSE "finally")
-               /\ Keep /\ UNCHANGED <<nt, newNt, intr, prev, pend, rsock, sock, file, sopen, fopen, peer, connected, queue, exits, errors, tcp, budget>>
+               /\ LET who == IF newNt # 0 THEN newNt ELSE nt
+                      hit == who # 0 /\ intr[who] IN
+                  IF HEAtomic /\ hit
+                  THEN /\ LET r == DisconnectBody(State, TRUE) IN Install([r.S EXCEPT !.tstate[t] = "finally"])
+                       /\ Keep /\ UNCHANGED <<pend, rsock, exits, errors, budget>>
+                  ELSE /\ Goto(t, IF hit THEN "he_disc" ELSE "finally")
+                       /\ Keep /\ UNCHANGED <<nt, newNt, intr, prev, pend, rsock, sock, file, sopen, fopen, peer, connected, queue, exits, errors, tcp, budget>>
 \* self.disconnect(immediate=True)
 NT_Disc(t) == /\ tstate[t] = "he_disc"
               /\ LET r == DisconnectBody(State, TRUE) IN Install([r.S EXCEPT !.tstate[t] = "finally"])
@@ -286,9 +293,11 @@ SuccessorAfterPredecessor ==
 \* liveness: an interrupted thread terminates
 InterruptLeadsToTermination == \A t \in Threads : (Live(t) /\ intr[t]) ~> (tstate[t] = "dead")
 
-\* observation outside the listed properties: a dying thread tears down a successor connection it does not own
+\* the error handling of a dying thread never tears down a connection it does not own (one made by another thread after
+\* the failure): whenever it disconnects, the slot holds no successor that is still uninterrupted
 NoCrossTeardown ==
-  [][\A t \in Threads : (tstate[t] = "he_disc" /\ tstate'[t] = "finally") => (newNt = 0 /\ nt \in {0, t})]_vars
+  [][\A t \in Threads : (tstate[t] \in {"he_check", "he_disc"} /\ tstate'[t] = "finally" /\ (intr' # intr \/ sock' # sock \/ connected' # connected))
+        => (LET who == IF newNt # 0 THEN newNt ELSE nt IN who = 0 \/ who = t \/ intr[who])]_vars
 
 EmitRows == (Emit /\ \A u \in Users : prog[u] = <<>>) =>
   PrintT(ToJson([result |-> result, tcp |-> tcp]))
